@@ -11,7 +11,7 @@ Driver for C11.  Protocol (one case):
        io0      : `<inputs>,<outputs>,<memory>` sizes before the apply
        tasks0   : `,`-separated hex task names registered before the apply | `-`
   bytes <hex>                     the container under test
-  decode | validate | metadata | apply <hex resource name|none> | mem | emitted | emitfail <hex source>
+  decode | validate | metadata | apply <hex resource name|none> | mem | emitted | built | emitfail <hex source>
   impl <...>                      (ignored here)
   end
 For every op with an `impl` line the model prints `m <answer>` (formats in `harness/src/c11.rs`).
@@ -252,6 +252,13 @@ def step (st : St) (line : String) : St × Option String :=
   -- the encoder returned an error for a program the compiler front end accepted: the model of the
   -- property has no such outcome ("every container the compiler emits validates")
   | ["emitfail", _] => (st, some "m never")
+  -- the container was encoded from a module that is well-formed by construction (hand-built); the
+  -- model checks that claim on what it decodes and answers with theorem c11_decode_encode
+  | ["built"] =>
+    let (st, d) := getDecoded st
+    match d with
+    | .error e => (st, some s!"m decode-err {showErr e}")
+    | .ok m => (st, some (if m.wf then "m rt=1 same=1" else "m not-wf"))
   | ["emitted"] =>
     let (st, d) := getDecoded st
     match d with
